@@ -13,8 +13,8 @@ import (
 func H_C13_empty() {
 	vxrt.EnvPresent("NO_COLOR")
 	n := vxrt.Param("n", 3)
-	a := vxrt.Text("a", vxrt.Len("na", 0, n))
-	b := vxrt.Text("b", vxrt.Len("nb", 0, n))
+	a := vxrt.Text("a", vxrt.Len("na", vxrt.Param("nalo", 0), vxrt.Param("nahi", n)))
+	b := vxrt.Text("b", vxrt.Len("nb", vxrt.Param("nblo", 0), vxrt.Param("nbhi", n)))
 	if vxrt.Param("ascii", 0) == 1 {
 		vxrt.Assume(vxrt.And(asciiOnly(a), asciiOnly(b)))
 	}
